@@ -281,3 +281,89 @@ def desugar_optional_setters(model, packages=("diameter.node",)):
                     params = [x.arg for x in a.args]
                 done.append(f"{ci.name}.{f.name}({', '.join(setters)})")
     return done
+
+
+def absorb_value_helpers(model, packages=("diameter.message.avp.generator", "diameter.message.commands._attributes",
+                                          "diameter.message._base", "diameter.node")):
+    """A private module-level function that the rules do not know, whose body is straight-line
+    (assignments / expression statements) and ends in `return <expr>`, is spliced into the simple
+    statements that call it: its statements (parameters replaced by the arguments, locals renamed
+    where they clash) go in front of the statement and the call becomes the returned value.  The
+    product of an extract-function refactoring of two identical branches thereby reads like the
+    branches did."""
+    absorbed = []
+    for mname, mod in model.modules.items():
+        if not any(mname.startswith(p) for p in packages):
+            continue
+        for name, fi in list(mod.funcs.items()):
+            fn = fi.node
+            if not name.startswith("_") or name.startswith("__") or name in KNOWN_METHODS or fn.decorator_list:
+                continue
+            a = fn.args
+            if a.vararg or a.kwarg or a.kwonlyargs or a.posonlyargs:
+                continue
+            body = [b for b in fn.body if not (isinstance(b, ast.Expr) and isinstance(b.value, ast.Constant)
+                                               and isinstance(b.value.value, str))]
+            if len(body) < 2 or not isinstance(body[-1], ast.Return) or body[-1].value is None \
+                    or not all(isinstance(b, (ast.Assign, ast.AnnAssign, ast.Expr)) for b in body[:-1]):
+                continue
+            # every reference is a call from a simple statement of a function of this module
+            refs = [n for m2 in model.modules.values() for n in ast.walk(m2.tree)
+                    if isinstance(n, ast.Name) and n.id == name and isinstance(n.ctx, ast.Load)]
+            refs += [n for m2 in model.modules.values() for n in ast.walk(m2.tree)
+                     if isinstance(n, ast.Attribute) and n.attr == name]
+            sites = []
+            for caller in [f_.node for f_ in mod.funcs.values() if f_ is not fi] + \
+                          [f_.node for c_ in mod.classes.values() for f_ in c_.all_funcs]:
+                for parent in ast.walk(caller):
+                    for fld in ("body", "orelse", "finalbody"):
+                        blk = getattr(parent, fld, None)
+                        if not isinstance(blk, list):
+                            continue
+                        for st in blk:
+                            if hasattr(st, "body") or not isinstance(st, (ast.Expr, ast.Assign, ast.AnnAssign,
+                                                                          ast.AugAssign, ast.Return)):
+                                continue
+                            for c in ast.walk(st):
+                                if isinstance(c, ast.Call) and isinstance(c.func, ast.Name) and c.func.id == name:
+                                    sites.append((caller, blk, st, c))
+            if not sites or len(sites) != len(refs):
+                continue
+            retname = f"{name.strip('_')}__value"
+            shadow = copy.deepcopy(fn)
+            # _instantiate expects a method: give the copy a `self` it never uses
+            shadow.args.args.insert(0, ast.arg(arg="self"))
+            sb = [b for b in shadow.body if not (isinstance(b, ast.Expr) and isinstance(b.value, ast.Constant)
+                                                 and isinstance(b.value.value, str))]
+            sb[-1] = ast.copy_location(ast.Assign(targets=[ast.Name(id=retname, ctx=ast.Store())],
+                                                  value=sb[-1].value), sb[-1])
+            shadow.body = sb
+            plans, ok = [], True
+            for caller, blk, st, c in sites:
+                spliced = _instantiate(shadow, c, caller)
+                if spliced is None:
+                    ok = False
+                    break
+                plans.append((blk, st, c, spliced))
+            if not ok:
+                continue
+            for blk, st, c, spliced in plans:
+                class Rep(ast.NodeTransformer):
+                    def visit_Call(self, node):
+                        if node is c:
+                            return ast.copy_location(ast.Name(id=retname, ctx=ast.Load()), node)
+                        return self.generic_visit(node)
+                Rep().visit(st)
+                for s2 in spliced:
+                    for y in ast.walk(s2):
+                        ast.copy_location(y, st) if hasattr(y, "lineno") or isinstance(y, (ast.expr, ast.stmt)) else None
+                i = blk.index(st)
+                blk[i:i] = spliced
+                ast.fix_missing_locations(st)
+            mod.funcs.pop(name, None)
+            try:
+                mod.tree.body.remove(fn)
+            except ValueError:
+                pass
+            absorbed.append(f"{mname}.{name}")
+    return absorbed
